@@ -74,6 +74,12 @@ def cases(draw):
         g = draw(hub_graph())
     cfg = draw(gg.switches())
     cfg["instances_report_mode"] = "mixed"
+    if chan not in ("sm", "endpoint") and draw(st.integers(0, 4)) == 0:
+        # disjunctions: the order of the alternatives of 'p @:A OR @:B OR ...' is part of the text; hub graphs give 2-4 shape alternatives
+        cfg["disable_or_statements"] = False
+        cfg["allow_redundant_or"] = draw(st.booleans())
+        if draw(st.integers(0, 2)) != 0:
+            g = draw(hub_graph())
     case = {"g": g, "cfg": cfg, "chan": chan, "thr": draw(st.sampled_from([0, 0, 0.5, 1])), "fmt": draw(st.sampled_from(["ShEx", "ShEx", "Shacl"]))}
     if draw(st.integers(0, 3)) == 0 and chan in ("nt", "tsv", "turtle_iter"):
         # the instantiation triples are filtered out of the feature pass: shapes can become empty at higher thresholds,
